@@ -33,6 +33,10 @@ def main() -> int:
             from checks import c09
 
             return c09.run(tier, a.seed)
+        if a.prop == "C11":
+            from checks import c11
+
+            return c11.run(tier, a.seed)
         if a.prop == "C12":
             from checks import c12
 
